@@ -185,6 +185,7 @@ type runner struct {
 	ctr    int
 	g      *gen
 	lastSt string
+	blocked bool
 }
 
 func (r *runner) id() string { r.ctr++; return fmt.Sprintf("%d:%d", r.seed, r.ctr) }
@@ -209,7 +210,12 @@ func guard(f func() error) (obs string) {
 }
 
 func (r *runner) settle() {
-	deadline := time.Now().Add(400 * time.Millisecond)
+	// normally a few milliseconds; a transaction that never completes (blocked log) is waited for once
+	wait := 4 * time.Second
+	if r.blocked {
+		wait = 300 * time.Millisecond
+	}
+	deadline := time.Now().Add(wait)
 	for time.Now().Before(deadline) {
 		txs, err := r.e.Txs.List(context.Background())
 		if err != nil {
@@ -227,6 +233,7 @@ func (r *runner) settle() {
 		}
 		time.Sleep(2 * time.Millisecond)
 	}
+	r.blocked = true
 }
 
 func (r *runner) dumpState(force bool) {
@@ -313,6 +320,7 @@ func (r *runner) doGet(wire []byte) {
 	if proto.Unmarshal(wire, req) != nil {
 		return
 	}
+	r.dumpState(false)
 	id := r.id()
 	w := hex.EncodeToString(wire)
 	r.begin(id, "get", w)
@@ -373,6 +381,7 @@ func (r *runner) doLsq(wire []byte) {
 	if gogoproto.Unmarshal(wire, req) != nil {
 		return
 	}
+	r.dumpState(false)
 	id := r.id()
 	w := hex.EncodeToString(wire)
 	r.begin(id, "lsq", w)
